@@ -3,27 +3,56 @@
 #define WF_VEC(v, len) ((v).n == (len) && __CPROVER_is_fresh((v).data, sizeof(Real) * (unsigned long)(len)))
 #define IS_LEVEL(l) ((l) == Motion_NoLevel || (l) == Motion_Acceleration || (l) == Motion_Velocity || (l) == Motion_Position)
 
+#define WF_SIZES (0 < g_nqt && g_nqt < 100000 && 0 < g_nut && g_nut < 100000 && 0 < g_nb && g_nb < 100000)
+#define WF_SLOTS(s) (0 <= (s)->mine.firstQIndex && (s)->mine.firstQIndex <= g_nqt && 0 <= (s)->mine.nQInUse && (s)->mine.nQInUse <= 7 && (s)->mine.firstQIndex + (s)->mine.nQInUse <= g_nqt \
+  && 0 <= (s)->mine.firstUIndex && (s)->mine.firstUIndex <= g_nut && 0 <= (s)->mine.nUInUse && (s)->mine.nUInUse <= 6 && (s)->mine.firstUIndex + (s)->mine.nUInUse <= g_nut \
+  && 0 <= gq && gq < g_nqt && 0 <= gu && gu < g_nut && 0 <= gm && gm < g_nb)
 #define WF_LOCK(self, s)                                                                                                              \
 __CPROVER_requires(__CPROVER_is_fresh(self, sizeof(*self)) && __CPROVER_is_fresh(s, sizeof(*s)))                                      \
-__CPROVER_requires(0 < g_nqt && g_nqt < 100000 && 0 < g_nut && g_nut < 100000 && 0 < g_nb && g_nb < 100000)                           \
+__CPROVER_requires(WF_SIZES)                        \
 __CPROVER_requires(WF_VEC(s->q, g_nqt) && WF_VEC(s->iv.lockedQs, g_nqt) && WF_VEC(s->u, g_nut) && WF_VEC(s->iv.lockedUs, g_nut))      \
 __CPROVER_requires(s->iv.mobilizerLockLevel.n == g_nb && __CPROVER_is_fresh(s->iv.mobilizerLockLevel.data, sizeof(int) * (unsigned long)g_nb)) \
 __CPROVER_requires(0 <= self->myMobilizedBodyIndex && self->myMobilizedBodyIndex < g_nb)                                              \
 /* this mobilizer's slots (SBModelCache / RigidBodyNode): at most 7 q and 6 u, inside the pools */                                   \
-__CPROVER_requires(0 <= s->mine.firstQIndex && 0 <= s->mine.nQInUse && s->mine.nQInUse <= 7 && s->mine.firstQIndex + s->mine.nQInUse <= g_nqt) \
-__CPROVER_requires(0 <= s->mine.firstUIndex && 0 <= s->mine.nUInUse && s->mine.nUInUse <= 6 && s->mine.firstUIndex + s->mine.nUInUse <= g_nut) \
-__CPROVER_requires(0 <= gq && gq < g_nqt && 0 <= gu && gu < g_nut && 0 <= gm && gm < g_nb)                                            \
+__CPROVER_requires(WF_SLOTS(s))                                                                                                       \
 __CPROVER_requires(!ghost_threw)
 
 #define ME(self) ((self)->myMobilizedBodyIndex)
-#define OLD(x) __CPROVER_old(x)
-#define LEVEL_UNCHANGED(s)  ((s)->iv.mobilizerLockLevel.data[gm] == OLD((s)->iv.mobilizerLockLevel.data[gm]))
-#define LQ_UNCHANGED(s)     SAME((s)->iv.lockedQs.data[gq], OLD((s)->iv.lockedQs.data[gq]))
-#define LU_UNCHANGED(s)     SAME((s)->iv.lockedUs.data[gu], OLD((s)->iv.lockedUs.data[gu]))
-#define Q_UNCHANGED(s)      SAME((s)->q.data[gq], OLD((s)->q.data[gq]))
-#define U_UNCHANGED(s)      SAME((s)->u.data[gu], OLD((s)->u.data[gu]))
+/* OLDV(name, lvalue): pre-state value. Contract mode: __CPROVER_old; plain-harness mode (lock_harness.h): the snapshot variable old_<name>. */
+#define OLDV(name, x) __CPROVER_old(x)
+#define O_LEVEL(s) OLDV(level, (s)->iv.mobilizerLockLevel.data[gm])
+#define O_LQ(s)    OLDV(lq, (s)->iv.lockedQs.data[gq])
+#define O_LU(s)    OLDV(lu, (s)->iv.lockedUs.data[gu])
+#define O_Q(s)     OLDV(q, (s)->q.data[gq])
+#define O_U(s)     OLDV(u, (s)->u.data[gu])
+#define O_STAGE(s) OLDV(stage, (s)->stage)
+#define LEVEL_UNCHANGED(s)  ((s)->iv.mobilizerLockLevel.data[gm] == O_LEVEL(s))
+#define LQ_UNCHANGED(s)     SAME((s)->iv.lockedQs.data[gq], O_LQ(s))
+#define LU_UNCHANGED(s)     SAME((s)->iv.lockedUs.data[gu], O_LU(s))
+#define Q_UNCHANGED(s)      SAME((s)->q.data[gq], O_Q(s))
+#define U_UNCHANGED(s)      SAME((s)->u.data[gu], O_U(s))
 
 /* ---------------- lock(state, level) ---------------- */
+/* 2: on failure nothing changes */
+/* 3: this mobilizer's lock level is the requested one, every other mobilizer's level is unchanged; Instance-stage change */
+/* 4: Position: locked q := current q (own slots); all other lockedQs slots unchanged */
+/* 5: Position: "the generalized speeds u for this mobilizer are set to zero in the state"; every other u unchanged (q is not assignable at all) */
+/* 6: Velocity: locked u := current u (own slots) */
+/* 7: Acceleration: "lock the acceleration to zero": the slot later read as the prescribed udot is +0.0 whatever it held before */
+/* 8: frame of lockedUs: other mobilizers' slots, and own slots at Position / NoLevel */
+#define LOCK_POST(E) \
+E(ghost_threw == (O_STAGE(state) < Stage_Model)) \
+E(ghost_threw ==> (LEVEL_UNCHANGED(state) && LQ_UNCHANGED(state) && LU_UNCHANGED(state) && U_UNCHANGED(state))) \
+E(!ghost_threw ==> (state->iv.mobilizerLockLevel.data[gm] == (gm == ME(self) ? level : O_LEVEL(state)))) \
+E(!ghost_threw ==> state->ghost_iv_invalidated) \
+E((!ghost_threw && level == Motion_Position && MINE_Q(state, gq)) ==> SAME(state->iv.lockedQs.data[gq], O_Q(state))) \
+E(!(level == Motion_Position && MINE_Q(state, gq)) ==> LQ_UNCHANGED(state)) \
+E((!ghost_threw && level == Motion_Position && MINE_U(state, gu)) ==> PZERO(state->u.data[gu])) \
+E(!(level == Motion_Position && MINE_U(state, gu)) ==> U_UNCHANGED(state)) \
+E((!ghost_threw && level == Motion_Velocity && MINE_U(state, gu)) ==> SAME(state->iv.lockedUs.data[gu], O_U(state))) \
+E((!ghost_threw && level == Motion_Acceleration && MINE_U(state, gu)) ==> PZERO(state->iv.lockedUs.data[gu])) \
+E((!MINE_U(state, gu) || level == Motion_Position || level == Motion_NoLevel) ==> LU_UNCHANGED(state)) \
+E(Q_UNCHANGED(state))
 void MI_lock(const struct MobodImpl* self, struct State* state, Motion_Level level)
 WF_LOCK(self, state)
 __CPROVER_requires(IS_LEVEL(level))
@@ -31,28 +60,31 @@ __CPROVER_assigns(ghost_threw, state->ghost_iv_invalidated, state->ghost_u_inval
                   __CPROVER_object_whole(state->iv.mobilizerLockLevel.data), __CPROVER_object_whole(state->iv.lockedQs.data),
                   __CPROVER_object_whole(state->iv.lockedUs.data), __CPROVER_object_whole(state->u.data))
 /* 1: "The state must already have been realized to at least Stage::Model" */
-__CPROVER_ensures(ghost_threw == (OLD(state->stage) < Stage_Model))
-/* 2: on failure nothing changes */
-__CPROVER_ensures(ghost_threw ==> (LEVEL_UNCHANGED(state) && LQ_UNCHANGED(state) && LU_UNCHANGED(state) && U_UNCHANGED(state)))
-/* 3: this mobilizer's lock level is the requested one, every other mobilizer's level is unchanged; Instance-stage change */
-__CPROVER_ensures(!ghost_threw ==> (state->iv.mobilizerLockLevel.data[gm] == (gm == ME(self) ? level : OLD(state->iv.mobilizerLockLevel.data[gm]))))
-__CPROVER_ensures(!ghost_threw ==> state->ghost_iv_invalidated)
-/* 4: Position: locked q := current q (own slots); all other lockedQs slots unchanged */
-__CPROVER_ensures((!ghost_threw && level == Motion_Position && MINE_Q(state, gq)) ==> SAME(state->iv.lockedQs.data[gq], OLD(state->q.data[gq])))
-__CPROVER_ensures(!(level == Motion_Position && MINE_Q(state, gq)) ==> LQ_UNCHANGED(state))
-/* 5: Position: "the generalized speeds u for this mobilizer are set to zero in the state"; every other u unchanged (q is not assignable at all) */
-__CPROVER_ensures((!ghost_threw && level == Motion_Position && MINE_U(state, gu)) ==> PZERO(state->u.data[gu]))
-__CPROVER_ensures(!(level == Motion_Position && MINE_U(state, gu)) ==> U_UNCHANGED(state))
-/* 6: Velocity: locked u := current u (own slots) */
-__CPROVER_ensures((!ghost_threw && level == Motion_Velocity && MINE_U(state, gu)) ==> SAME(state->iv.lockedUs.data[gu], OLD(state->u.data[gu])))
-/* 7: Acceleration: "lock the acceleration to zero": the slot later read as the prescribed udot is +0.0 whatever it held before */
-__CPROVER_ensures((!ghost_threw && level == Motion_Acceleration && MINE_U(state, gu)) ==> PZERO(state->iv.lockedUs.data[gu]))
-/* 8: frame of lockedUs: other mobilizers' slots, and own slots at Position / NoLevel */
-__CPROVER_ensures((!MINE_U(state, gu) || level == Motion_Position || level == Motion_NoLevel) ==> LU_UNCHANGED(state))
+LOCK_POST(__CPROVER_ensures)
 ;
 
 /* ---------------- lockAt(state, n, value, level) ---------------- */
 #define LOCKAT_MISMATCH(s) ((level == Motion_Position && n != (s)->mine.nQInUse) || ((level == Motion_Velocity || level == Motion_Acceleration) && n != (s)->mine.nUInUse))
+/* 2: stage failure: nothing changes */
+/* 3: level */
+/* 4: Position: q and locked q := value (own slots), u := 0 (own slots) */
+/* 5: Velocity / Acceleration: the stored value (lockedUs, own slots) is the given one */
+/* 6: frame of lockedUs */
+#define LOCKAT_POST(E) \
+E(ghost_threw == (O_STAGE(state) < Stage_Model || LOCKAT_MISMATCH(state))) \
+E(O_STAGE(state) < Stage_Model ==> (LEVEL_UNCHANGED(state) && LQ_UNCHANGED(state) && LU_UNCHANGED(state) && U_UNCHANGED(state) && Q_UNCHANGED(state))) \
+E(!ghost_threw ==> (state->iv.mobilizerLockLevel.data[gm] == (gm == ME(self) ? level : O_LEVEL(state)))) \
+E(gm != ME(self) ==> LEVEL_UNCHANGED(state)) \
+E(!ghost_threw ==> state->ghost_iv_invalidated) \
+E((!ghost_threw && level == Motion_Position && MINE_Q(state, gq)) ==> \
+                  (SAME(state->iv.lockedQs.data[gq], value[(MINE_Q(state, gq) && !ghost_threw && level == Motion_Position) ? gq - state->mine.firstQIndex : 0]) \
+                   && SAME(state->q.data[gq], value[(MINE_Q(state, gq) && !ghost_threw && level == Motion_Position) ? gq - state->mine.firstQIndex : 0]))) \
+E((!MINE_Q(state, gq) || level != Motion_Position) ==> (LQ_UNCHANGED(state) && Q_UNCHANGED(state))) \
+E((!ghost_threw && level == Motion_Position && MINE_U(state, gu)) ==> PZERO(state->u.data[gu])) \
+E((!MINE_U(state, gu) || level != Motion_Position) ==> U_UNCHANGED(state)) \
+E((!ghost_threw && (level == Motion_Velocity || level == Motion_Acceleration) && MINE_U(state, gu)) ==> \
+                  SAME(state->iv.lockedUs.data[gu], value[(MINE_U(state, gu) && !ghost_threw && (level == Motion_Velocity || level == Motion_Acceleration)) ? gu - state->mine.firstUIndex : 0])) \
+E((!MINE_U(state, gu) || level == Motion_Position || level == Motion_NoLevel) ==> LU_UNCHANGED(state))
 void MI_lockAt(const struct MobodImpl* self, struct State* state, int n, const Real* value, Motion_Level level)
 WF_LOCK(self, state)
 __CPROVER_requires(IS_LEVEL(level) && 0 <= n && n <= 8 && __CPROVER_is_fresh(value, sizeof(Real) * (unsigned long)(n + 1)))
@@ -60,36 +92,20 @@ __CPROVER_assigns(ghost_threw, state->ghost_iv_invalidated, state->ghost_u_inval
                   __CPROVER_object_whole(state->iv.mobilizerLockLevel.data), __CPROVER_object_whole(state->iv.lockedQs.data),
                   __CPROVER_object_whole(state->iv.lockedUs.data), __CPROVER_object_whole(state->u.data), __CPROVER_object_whole(state->q.data))
 /* 1: stage >= Model and "the Vector must be the expected length" */
-__CPROVER_ensures(ghost_threw == (OLD(state->stage) < Stage_Model || LOCKAT_MISMATCH(state)))
-/* 2: stage failure: nothing changes */
-__CPROVER_ensures(OLD(state->stage) < Stage_Model ==> (LEVEL_UNCHANGED(state) && LQ_UNCHANGED(state) && LU_UNCHANGED(state) && U_UNCHANGED(state) && Q_UNCHANGED(state)))
-/* 3: level */
-__CPROVER_ensures(!ghost_threw ==> (state->iv.mobilizerLockLevel.data[gm] == (gm == ME(self) ? level : OLD(state->iv.mobilizerLockLevel.data[gm]))))
-__CPROVER_ensures(gm != ME(self) ==> LEVEL_UNCHANGED(state))
-__CPROVER_ensures(!ghost_threw ==> state->ghost_iv_invalidated)
-/* 4: Position: q and locked q := value (own slots), u := 0 (own slots) */
-__CPROVER_ensures((!ghost_threw && level == Motion_Position && MINE_Q(state, gq)) ==>
-                  (SAME(state->iv.lockedQs.data[gq], value[(MINE_Q(state, gq) && !ghost_threw && level == Motion_Position) ? gq - state->mine.firstQIndex : 0])
-                   && SAME(state->q.data[gq], value[(MINE_Q(state, gq) && !ghost_threw && level == Motion_Position) ? gq - state->mine.firstQIndex : 0])))
-__CPROVER_ensures((!MINE_Q(state, gq) || level != Motion_Position) ==> (LQ_UNCHANGED(state) && Q_UNCHANGED(state)))
-__CPROVER_ensures((!ghost_threw && level == Motion_Position && MINE_U(state, gu)) ==> PZERO(state->u.data[gu]))
-__CPROVER_ensures((!MINE_U(state, gu) || level != Motion_Position) ==> U_UNCHANGED(state))
-/* 5: Velocity / Acceleration: the stored value (lockedUs, own slots) is the given one */
-__CPROVER_ensures((!ghost_threw && (level == Motion_Velocity || level == Motion_Acceleration) && MINE_U(state, gu)) ==>
-                  SAME(state->iv.lockedUs.data[gu], value[(MINE_U(state, gu) && !ghost_threw && (level == Motion_Velocity || level == Motion_Acceleration)) ? gu - state->mine.firstUIndex : 0]))
-/* 6: frame of lockedUs */
-__CPROVER_ensures((!MINE_U(state, gu) || level == Motion_Position || level == Motion_NoLevel) ==> LU_UNCHANGED(state))
+LOCKAT_POST(__CPROVER_ensures)
 ;
 
 /* ---------------- unlock(state) ---------------- */
+/* "Unlock this mobilizer": level NoLevel; other mobilizers unchanged; recorded values, q and u are not assignable */
+#define UNLOCK_POST(E) \
+E(ghost_threw == (O_STAGE(state) < Stage_Topology)) \
+E(ghost_threw ==> LEVEL_UNCHANGED(state)) \
+E(!ghost_threw ==> (state->iv.mobilizerLockLevel.data[gm] == (gm == ME(self) ? Motion_NoLevel : O_LEVEL(state)))) \
+E(!ghost_threw ==> state->ghost_iv_invalidated)
 void MI_unlock(const struct MobodImpl* self, struct State* state)
 WF_LOCK(self, state)
 __CPROVER_assigns(ghost_threw, state->ghost_iv_invalidated, __CPROVER_object_whole(state->iv.mobilizerLockLevel.data))
-__CPROVER_ensures(ghost_threw == (OLD(state->stage) < Stage_Topology))
-__CPROVER_ensures(ghost_threw ==> LEVEL_UNCHANGED(state))
-/* "Unlock this mobilizer": level NoLevel; other mobilizers unchanged; recorded values, q and u are not assignable */
-__CPROVER_ensures(!ghost_threw ==> (state->iv.mobilizerLockLevel.data[gm] == (gm == ME(self) ? Motion_NoLevel : OLD(state->iv.mobilizerLockLevel.data[gm]))))
-__CPROVER_ensures(!ghost_threw ==> state->ghost_iv_invalidated)
+UNLOCK_POST(__CPROVER_ensures)
 ;
 
 /* ---------------- getLockLevel(state) / isLocked(state) ---------------- */
@@ -106,17 +122,19 @@ __CPROVER_ensures(__CPROVER_return_value == (state->iv.mobilizerLockLevel.data[M
 
 /* ---------------- getLockValueAsVector(state) ---------------- */
 #define MYLEVEL(s, self) ((s)->iv.mobilizerLockLevel.data[ME(self)])
+#define GLV_POST(E) \
+E(MYLEVEL(state, self) == Motion_NoLevel ==> __CPROVER_return_value.n == 0) \
+E(MYLEVEL(state, self) == Motion_Position ==> __CPROVER_return_value.n == state->mine.nQInUse) \
+E((MYLEVEL(state, self) == Motion_Velocity || MYLEVEL(state, self) == Motion_Acceleration) ==> __CPROVER_return_value.n == state->mine.nUInUse) \
+E((MYLEVEL(state, self) == Motion_Position && gi < state->mine.nQInUse) ==> \
+                  SAME(__CPROVER_return_value.data[gi < __CPROVER_return_value.n ? gi : 0], state->iv.lockedQs.data[(MYLEVEL(state, self) == Motion_Position && gi < state->mine.nQInUse) ? state->mine.firstQIndex + gi : 0])) \
+E(((MYLEVEL(state, self) == Motion_Velocity || MYLEVEL(state, self) == Motion_Acceleration) && gi < state->mine.nUInUse) ==> \
+                  SAME(__CPROVER_return_value.data[gi < __CPROVER_return_value.n ? gi : 0], state->iv.lockedUs.data[((MYLEVEL(state, self) == Motion_Velocity || MYLEVEL(state, self) == Motion_Acceleration) && gi < state->mine.nUInUse) ? state->mine.firstUIndex + gi : 0]))
 struct Vector MI_getLockValueAsVector(const struct MobodImpl* self, const struct State* state)
 WF_LOCK(self, state)
 __CPROVER_requires(IS_LEVEL(MYLEVEL(state, self)) && 0 <= gi && gi < 8)
 __CPROVER_assigns()
 /* "the q, u, or udot value at which this mobilizer is locked, depending on the lock level, as a Vector of the appropriate length;
     if not currently locked, a zero-length Vector" */
-__CPROVER_ensures(MYLEVEL(state, self) == Motion_NoLevel ==> __CPROVER_return_value.n == 0)
-__CPROVER_ensures(MYLEVEL(state, self) == Motion_Position ==> __CPROVER_return_value.n == state->mine.nQInUse)
-__CPROVER_ensures((MYLEVEL(state, self) == Motion_Velocity || MYLEVEL(state, self) == Motion_Acceleration) ==> __CPROVER_return_value.n == state->mine.nUInUse)
-__CPROVER_ensures((MYLEVEL(state, self) == Motion_Position && gi < state->mine.nQInUse) ==>
-                  SAME(__CPROVER_return_value.data[gi < __CPROVER_return_value.n ? gi : 0], state->iv.lockedQs.data[(MYLEVEL(state, self) == Motion_Position && gi < state->mine.nQInUse) ? state->mine.firstQIndex + gi : 0]))
-__CPROVER_ensures(((MYLEVEL(state, self) == Motion_Velocity || MYLEVEL(state, self) == Motion_Acceleration) && gi < state->mine.nUInUse) ==>
-                  SAME(__CPROVER_return_value.data[gi < __CPROVER_return_value.n ? gi : 0], state->iv.lockedUs.data[((MYLEVEL(state, self) == Motion_Velocity || MYLEVEL(state, self) == Motion_Acceleration) && gi < state->mine.nUInUse) ? state->mine.firstUIndex + gi : 0]))
+GLV_POST(__CPROVER_ensures)
 ;
